@@ -17,7 +17,7 @@ META = {
     ),
     "anchors": ["hamiltonians.ham_fermi_hubbard_from_edges", "hamiltonians.ham_fermi_hubbard_spinless_from_edges", "hamiltonians.make_edge_factory", "hamiltonians.make_node_factory", "networks.parse_edges_to_site_info"],
     "floors": {
-        "quick": {"evaluations": 1500, "distinct_nontrivial": 300, "tables": {"builder/hubbard": 500, "builder/spinless": 400, "builder/site_info": 400, "coeff/dict-reversed-orientation": 100, "coeff/callable": 100, "coeff/dict-reused-after-update": 50, "graphs/exhaustive<=4": 46}},
+        "quick": {"evaluations": 1500, "distinct_nontrivial": 300, "tables": {"builder/hubbard": 500, "builder/spinless": 400, "builder/site_info": 400, "coeff/dict-reversed-orientation": 100, "coeff/callable": 100, "coeff/dict-reused-after-update": 50, "graphs/exhaustive<=4": 46, "graphs/disconnected": 300, "graphs/disconnected-every-bond-joins-equal-degrees-but-not-regular": 20}},
         "thorough": {"evaluations": 20000, "distinct_nontrivial": 3000},
     },
     "exhaustive": {"quick": False, "thorough": False},
@@ -38,7 +38,7 @@ def small_graphs():
 
 def relabel(rng, n, kind):
     if kind == "int":
-        labs = rng.sample(range(-6, 40), n) if rng.random() < 0.5 else rng.sample(range(-3, 4), n)
+        labs = rng.sample(range(-6, 40), n) if rng.random() < 0.5 else rng.sample(range(-3, max(4, n - 2)), n)
     elif kind == "tuple":
         labs = rng.sample([(i, j) for i in range(-2, 3) for j in range(-2, 3)], n)
     else:
@@ -332,6 +332,50 @@ def site_info_case(ctx, rng, n, edges0):
         ctx.nontrivial(("site_info", tuple(map(tuple, edges0)), kind, phys))
 
 
+def structured_graph(rng):
+    """Disjoint unions of standard pieces (cycle, complete graph, single bond, path, star, 2xk
+    ladder): disconnected lattices, components that are each regular but of different degree,
+    regular lattices, bipartite ones. 4-11 sites."""
+    pieces = []
+    n = 0
+    for _ in range(rng.choice([1, 2, 2, 2, 3])):
+        kind = rng.choice(["cycle", "cycle", "complete", "bond", "bond", "path", "star", "ladder"])
+        if kind == "cycle":
+            k = rng.randint(3, 5)
+            es = [(i, (i + 1) % k) for i in range(k)]
+        elif kind == "complete":
+            k = rng.randint(3, 4)
+            es = list(itertools.combinations(range(k), 2))
+        elif kind == "bond":
+            k, es = 2, [(0, 1)]
+        elif kind == "path":
+            k = rng.randint(3, 4)
+            es = [(i, i + 1) for i in range(k - 1)]
+        elif kind == "star":
+            k = rng.randint(4, 5)
+            es = [(0, i) for i in range(1, k)]
+        else:
+            m = rng.randint(2, 3)
+            k = 2 * m
+            es = [(i, i + 1) for i in range(m - 1)] + [(m + i, m + i + 1) for i in range(m - 1)] + [(i, m + i) for i in range(m)]
+        if n + k > 11:
+            break
+        pieces.append(kind)
+        yield_es = [(a + n, b + n) for a, b in es]
+        n += k
+        for e in yield_es:
+            pieces.append(e)
+    es = [p_ for p_ in pieces if isinstance(p_, tuple)]
+    kinds = [p_ for p_ in pieces if isinstance(p_, str)]
+    # interleave the site numbers so that components are not contiguous ranges
+    perm = list(range(n))
+    if rng.random() < 0.5:
+        rng.shuffle(perm)
+    es = [tuple(sorted((perm[a], perm[b]))) for a, b in es]
+    rng.shuffle(es)
+    return n, es, kinds
+
+
 def random_graph(rng):
     n = rng.choice([5, 6])
     all_edges = list(itertools.combinations(range(n), 2))
@@ -359,6 +403,21 @@ def run(ctx):
             ctx.run_case(lattice_case, ctx, rng, n, es, "exhaustive<=4" if rep == 0 else None)
             if rep % 2 == 0:
                 ctx.run_case(site_info_case, ctx, rng, n, es)
+    for _, rng in ctx.cases("structured-graphs", ctx.budget(700, 14000)):
+        n, es, kinds = structured_graph(rng)
+        if not es:
+            continue
+        deg = {}
+        for a_, b_ in es:
+            deg[a_] = deg.get(a_, 0) + 1
+            deg[b_] = deg.get(b_, 0) + 1
+        ctx.count("graphs", "structured")
+        if len(kinds) >= 2:
+            ctx.count("graphs", "disconnected")
+            if all(deg[a_] == deg[b_] for a_, b_ in es) and len(set(deg.values())) >= 2:
+                ctx.count("graphs", "disconnected-every-bond-joins-equal-degrees-but-not-regular")
+        ctx.run_case(lattice_case, ctx, rng, n, es)
+        ctx.run_case(site_info_case, ctx, rng, n, es)
     for _, rng in ctx.cases("random-graphs", ctx.budget(1250, 25000)):
         n, es = random_graph(rng)
         ctx.run_case(lattice_case, ctx, rng, n, es)
